@@ -394,7 +394,7 @@ def cases(tier, seed):
       init='random_uniform_or_linear_initializer')
   for sizes in ([2, 2], [2, 3], [3, 3], [2, 2, 2]):
     for (omin, omax) in bounds[:5]:
-      add('case_lattice_random', sizes=sizes, units=1 + len(sizes) % 2, mono=[1] * len(sizes), omin=omin, omax=omax,
+      add('case_lattice_random', sizes=sizes, units={(2, 2): 3, (2, 3): 1, (3, 3): 2, (2, 2, 2): 2}[tuple(sizes)], mono=[1] * len(sizes), omin=omin, omax=omax,
           init='random_monotonic_initializer', max_schedules=40, seed=seed)
   for init in ('equal_heights', 'equal_slopes'):
     for mono in (0, 1, -1):
